@@ -210,20 +210,20 @@ func (a *SparseInt64Matrix) Set(b ConstMatrix) {
   if n1 != n2 || m1 != m2 {
     panic("Copy(): Matrix dimension does not match!")
   }
-  for it := a.Iterator(); it.Ok(); it.Next() {
-    i, j := it.Index()
-    it.Get().Set(b.ConstAt(i, j))
+  for it := a.JOINT_ITERATOR(b); it.Ok(); it.Next() {
+    s1, s2 := it.GET()
+    if s1.ptr == nil {
+      s1 = a.AT(it.Index())
+    }
+    s1.Set(s2)
   }
 }
 func (matrix *SparseInt64Matrix) SetIdentity() {
+  n, m := matrix.Dims()
   c := NewScalar(matrix.ElementType(), 1.0)
-  for it := matrix.Iterator(); it.Ok(); it.Next() {
-    i, j := it.Index()
-    if i == j {
-      it.Get().Set(c)
-    } else {
-      it.Get().Reset()
-    }
+  matrix.Reset()
+  for i := 0; i < n && i < m; i++ {
+    matrix.At(i, i).Set(c)
   }
 }
 func (matrix *SparseInt64Matrix) Reset() {
